@@ -118,6 +118,18 @@ pub fn with_frame<R>(fr: &Frame, f: impl FnOnce(&[u8]) -> R) -> Option<R> {
     })
 }
 
+/// A datagram that is one very long chain of header-only packets (2^20 empty BYEs, 4 MiB): every
+/// per-packet cost of walking a compound — a stack frame, a counter, an index — is paid a million
+/// times.  Delivered once per run, by the episode that owns it.
+pub const LONG_CHAIN_EPISODE: u64 = 1;
+pub fn long_chain() -> Vec<u8> {
+    let mut v = Vec::with_capacity(4 << 20);
+    for _ in 0..(1usize << 20) {
+        v.extend_from_slice(&[0x80, 203, 0, 0]);
+    }
+    v
+}
+
 /// Single-packet frames for length-field value `v` (C08, C18 layer A, C01).
 pub fn packet_frames(v: u32, with_sdes: bool) -> Vec<Frame> {
     let mut out = Vec::new();
